@@ -62,9 +62,39 @@ def gen(ctx, prop):
         scripts += sc
     if prop == "C13":
         scripts += list_matrices(ctx, quick)
+    if prop == "C04":
+        scripts += blind_worlds(ctx, quick)
     for i, s in enumerate(scripts):
         s["id"] = i
     return scripts
+
+
+def blind_worlds(ctx, quick):
+    """C04, model-independent histories for the contact / multi-member worlds: both members write the SAME kind of
+    event (ownership claim, alias key, secret) after announcing their device, and the four to six entries reach the
+    third replica in every order - causally closed or as raw single entries - followed by cross deliveries and
+    reopens.  Random walks of the model (<= 4 entries, 9 steps) practically never produce two claims by two members
+    AND every arrival order."""
+    import itertools
+    out = []
+
+    def st(act, d, s="-", x=0):
+        return {"act": act, "d": d, "s": s, "x": x, "y": 0, "res": {}}
+    fams = [("multi", "claim"), ("contact", "alias"), ("multi", "secretA"), ("contact", "secretB")]
+    for world, kind in fams:
+        head = [st("op", "a1", "adddev"), st("op", "a1", kind), st("op", "b1", "adddev"), st("op", "b1", kind)]
+        perms = list(itertools.permutations([1, 2, 3, 4]))
+        if quick:
+            perms = ctx.rng.sample(perms, 10) + [(4, 3, 2, 1), (2, 4, 1, 3)]
+        for perm in perms:
+            for how in ("rdeliver", "deliver"):
+                steps = list(head) + [st(how, "b2", x=e) for e in perm]
+                # everybody ends up with everything, then reopens
+                steps += [st("deliver", "a1", x=4), st("deliver", "b1", x=2), st("deliver", "b2", x=4), st("deliver", "b2", x=2)]
+                steps += [st("reopen", "b2"), st("reopen", "a1"), st("reopen", "b1")]
+                out.append({"id": 0, "cfg": {"contacts": 1, "groups": 1, "plan": "blind-%s-%s" % (world, kind), "log": "metadata", "world": world},
+                            "steps": steps})
+    return out
 
 
 def list_matrices(ctx, quick):
